@@ -417,28 +417,32 @@ def readBody (bnd : List UInt8) : List (List UInt8) → List UInt8 → Bool → 
       .ok ⟨rest, acc, true, unterminated⟩
     else readBody bnd rest (acc ++ line) (endsLF line)
 
-/-- the part loop of `process_multipart`; `done` mirrors `part.fp.done` -/
+/-- the part loop of `process_multipart`.  `part.fp.done` after a part is true when the end marker was seen
+    (`finish()`), when the boundary line just read had no `\n` (the reader ran into the end looking for it), or
+    when the client sent fewer bytes than declared (`short`) and that boundary line was the last thing that
+    arrived: `read()` flags the end as soon as the socket is drained, and since 6b8bd05 `readline` clears the
+    flag again whenever it pushes unread bytes back. -/
 def partsLoop (bnd : List UInt8) : Nat → List (List UInt8) → Bool → List (List UInt8) →
     Except Raised (List (List UInt8))
   | 0, _, _, acc => .ok acc
-  | fuel + 1, lines, done, acc =>
+  | fuel + 1, lines, short, acc =>
     match readHeaders lines false with
     | .error r => .error r
     | .ok afterH =>
       match readBody bnd afterH [] true with
       | .error r => .error r
       | .ok res =>
-        if done || res.final || res.sawUnterminated then .ok (res.content :: acc)
-        else partsLoop bnd fuel res.rest done (res.content :: acc)
+        if res.final || res.sawUnterminated || (short && res.rest.isEmpty) then .ok (res.content :: acc)
+        else partsLoop bnd fuel res.rest short (res.content :: acc)
 
 def findFirstMarker (bnd : List UInt8) : List (List UInt8) → Option (List (List UInt8))
   | [] => none
   | line :: rest => if stripBytes line = bnd then some rest else findFirstMarker bnd rest
 
 /-- `process_multipart` + `_old_process_multipart` (every part is decoded with us-ascii, then utf-8) on a
-    `multipart/mixed` request entity; `ib` = boundary parameter after `strip('"')`; `doneEarly` = the
-    client sent fewer bytes than it declared (the reader learns that on its first read). -/
-def processMultipart (ib : List Char) (body : List UInt8) (doneEarly : Bool) : Except Raised Unit :=
+    `multipart/mixed` request entity; `ib` = boundary parameter after `strip('"')`; `short` = the
+    client sent fewer bytes than it declared (declared Content-Length larger than the body). -/
+def processMultipart (ib : List Char) (body : List UInt8) (short : Bool) : Except Raised Unit :=
   if !boundaryOk ib then .error (.http 400) else
   let bnd : List UInt8 := [45, 45] ++ ib.map (fun c => UInt8.ofNat c.toNat)
   let lines := splitLines body
@@ -446,7 +450,7 @@ def processMultipart (ib : List Char) (body : List UInt8) (doneEarly : Bool) : E
   | none => .ok ()
   | some rest =>
     -- `HTTPError.handle((ValueError, EOFError), 400)` around the part loop
-    match partsLoop bnd (lines.length + 1) rest doneEarly [] with
+    match partsLoop bnd (lines.length + 1) rest short [] with
     | .error (.py .ValueError) => .error (.http 400)
     | .error (.py .EOFError) => .error (.http 400)
     | .error r => .error r
